@@ -557,3 +557,185 @@ def union_member_ok(t, value):
     if isinstance(t, (bv.Struct, bv.Union)):
         return type_only_ok_inner(t, value)
     return valid(t, value)
+
+
+# =====================================================================================
+# The wire format (docs/json_serializer.rst): Enc  (C05; C04/C07/C13 build on it)
+#
+# enc_ok(t, v)  : encoding v at type t succeeds (otherwise ValidationError)
+# enc_val(t, v) : the JSON value it yields
+# enc_pre(t, v) : the domain of the encoder (DESIGN rt_domain): every position of an
+#                 enumerated-subtype type holds an instance of a listed leaf subtype, union
+#                 positions hold union objects (with _tag / _value slots)
+# Context of this revision: new-style JSON, no msgpack, no alias validators, no redaction,
+# caller without extra permissions (ctx_ok); C13 extends it.
+# =====================================================================================
+import base64
+
+
+def ctx_ok(s):
+    return (isinstance(s.caller_permissions, ss.CallerPermissionsDefault)
+            and s._old_style is False and s._for_msgpack is False and s.should_redact is False
+            and s._alias_validators == {})
+
+
+import stone.backends.python_rsrc.stone_serializers as ss
+
+
+def b64_text(v):
+    """Bytes: Base64-encoded string"""
+    return base64.b64encode(v).decode('ascii')
+
+
+def enc_primitive(t, v):
+    if isinstance(t, bv.Void):
+        return None
+    if isinstance(t, bv.Timestamp):
+        return v.strftime(t.format)
+    if isinstance(t, bv.Bytes):
+        return b64_text(v)
+    if isinstance(t, bv.Integer) and isinstance(v, bool):
+        return int(v)
+    return v
+
+
+def field_emitted(v, name):
+    """a struct field appears in the encoding iff it was set explicitly (to a non-null value)"""
+    return raw_slot(v, name) is not NOT_SET and raw_slot(v, name) is not None
+
+
+def field_enc_ok(f, v):
+    return field_present(v, f[0]) and (not field_emitted(v, f[0]) or enc_ok(f[1], raw_slot(v, f[0])))
+
+
+def enc_fields_ok(fields, k, v):
+    return all(field_enc_ok(fields[i], v) for i in range(k))
+
+
+@spec(recursive=True, returns='val', kind='dict')
+def enc_fields_dict(fields, k, v):
+    """object with one key per emitted field among the first k fields"""
+    if k <= 0:
+        return {}
+    if field_emitted(v, fields[k - 1][0]):
+        return dict_with(enc_fields_dict(fields, k - 1, v), fields[k - 1][0],
+                         enc_val(fields[k - 1][1], raw_slot(v, fields[k - 1][0])))
+    return enc_fields_dict(fields, k - 1, v)
+
+
+def enc_struct_ok(t, v):
+    return enc_fields_ok(t.definition._all_fields_, len(t.definition._all_fields_), v)
+
+
+def enc_struct_val(t, v):
+    return enc_fields_dict(t.definition._all_fields_, len(t.definition._all_fields_), v)
+
+
+def tree_entry(t, v):
+    return t.definition._pytype_to_tag_and_subtype_[type(v)]
+
+
+def tree_listed_leaf(t, v):
+    return (type(v) in t.definition._pytype_to_tag_and_subtype_
+            and not isinstance(tree_entry(t, v)[1], bv.StructTree))
+
+
+def member_is_none(tv, value):
+    return isinstance(tv, bv.Void) or (isinstance(tv, bv.Nullable) and value is None)
+
+
+def enc_union_ok(t, v):
+    return (v._tag is not None and hashable_key(v._tag) and v._tag in t.definition._tagmap
+            and (member_is_none(t.definition._tagmap[v._tag], v._value)
+                 or enc_ok(t.definition._tagmap[v._tag], v._value)))
+
+
+def flattened_member(tv):
+    """members that are ordinary structs serialize as the struct plus a .tag key"""
+    return isinstance(unwrap_nullable(tv), bv.Struct) and not isinstance(unwrap_nullable(tv), bv.StructTree)
+
+
+def enc_union_val(t, v):
+    if member_is_none(t.definition._tagmap[v._tag], v._value):
+        return {'.tag': v._tag}
+    if flattened_member(t.definition._tagmap[v._tag]):
+        return dict_update({'.tag': v._tag}, enc_val(t.definition._tagmap[v._tag], v._value))
+    return dict_with({'.tag': v._tag}, v._tag, enc_val(t.definition._tagmap[v._tag], v._value))
+
+
+@spec(recursive=True, returns='bool')
+def enc_ok(t, v):
+    if isinstance(t, bv.List):
+        return valid(t, v) and all(enc_ok(t.item_validator, x) for x in norm(t, v))
+    if isinstance(t, bv.Map):
+        return valid(t, v) and all(enc_ok(t.key_validator, k) and enc_ok(t.value_validator, x)
+                                   for k, x in norm(t, v).items())
+    if isinstance(t, bv.Nullable):
+        return valid(t, v) and (v is None or enc_ok(t.validator, v))
+    if isinstance(t, bv.Primitive):
+        return valid(t, v)
+    if isinstance(t, bv.StructTree):
+        return valid(t, v) and enc_struct_ok(tree_entry(t, v)[1], v)
+    if isinstance(t, bv.Struct):
+        return struct_type_ok(t, v) and enc_struct_ok(t, v)
+    if isinstance(t, bv.Union):
+        return union_type_ok(t, v) and enc_union_ok(t, v)
+    return False
+
+
+def _enc_val_facts(t, v, r):
+    """the encoding of a struct (with or without subtype tag) is a JSON object"""
+    return not isinstance(t, bv.Struct) or isinstance(r, dict)
+
+
+@spec(recursive=True, returns='val', facts=_enc_val_facts)
+def enc_val(t, v):
+    if isinstance(t, bv.List):
+        return [enc_val(t.item_validator, x) for x in norm(t, v)]
+    if isinstance(t, bv.Map):
+        return {enc_val(t.key_validator, k): enc_val(t.value_validator, x) for k, x in norm(t, v).items()}
+    if isinstance(t, bv.Nullable):
+        if v is None:
+            return None
+        return enc_val(t.validator, v)
+    if isinstance(t, bv.Primitive):
+        return enc_primitive(t, v)
+    if isinstance(t, bv.StructTree):
+        return dict_update({'.tag': tree_entry(t, v)[0][0]}, enc_struct_val(tree_entry(t, v)[1], v))
+    if isinstance(t, bv.Struct):
+        return enc_struct_val(t, v)
+    return enc_union_val(t, v)
+
+
+def field_enc_pre(f, v):
+    return not field_present(v, f[0]) or not field_emitted(v, f[0]) or enc_pre(f[1], raw_slot(v, f[0]))
+
+
+@spec(recursive=True, returns='bool')
+def enc_pre(t, v):
+    """domain of the encoder"""
+    if isinstance(t, bv.List):
+        return not valid(t, v) or all(enc_pre(t.item_validator, x) for x in norm(t, v))
+    if isinstance(t, bv.Map):
+        return not valid(t, v) or all(enc_pre(t.key_validator, k) and enc_pre(t.value_validator, x)
+                                      for k, x in norm(t, v).items())
+    if isinstance(t, bv.Nullable):
+        return v is None or not valid(t, v) or enc_pre(t.validator, v)
+    if isinstance(t, bv.StructTree):
+        return not valid(t, v) or (tree_listed_leaf(t, v) and all(
+            field_enc_pre(f, v) for f in tree_entry(t, v)[1].definition._all_fields_))
+    if isinstance(t, bv.Struct):
+        return not struct_type_ok(t, v) or all(field_enc_pre(f, v) for f in t.definition._all_fields_)
+    if isinstance(t, bv.Union):
+        return not union_type_ok(t, v) or (
+            hasattr(v, '_tag') and hasattr(v, '_value') and (v._tag is None or isinstance(v._tag, str)) and (
+                v._tag is None or v._tag not in t.definition._tagmap
+                or member_is_none(t.definition._tagmap[v._tag], v._value)
+                or enc_pre(t.definition._tagmap[v._tag], v._value)))
+    return True
+
+
+def encode_outcome(t, v):
+    if enc_ok(t, v):
+        return Ret(enc_val(t, v))
+    return Raise(bv.ValidationError)
